@@ -1,3 +1,4 @@
+import operator
 from datetime import datetime
 try:
     from functools import lru_cache
@@ -282,15 +283,40 @@ def _get_path(grid, obj, paths):
         return NOT_FOUND
 
 
+_COMPARE_OPS = {
+    '==': operator.eq, '!=': operator.ne,
+    '<': operator.lt, '<=': operator.le,
+    '>': operator.gt, '>=': operator.ge,
+}
+
+
+def _compare(op, left, right):
+    """
+    A comparison on an absent tag, or between values of kinds that do not
+    compare, is false: it is not an error.
+    """
+    try:
+        return bool(_COMPARE_OPS[op](left, right))
+    except TypeError:
+        return False
+
+
 def _generate_filter_in_python(node, def_filter, literals):
     if isinstance(node, FilterPath):
         def_filter.append("_get_path(_grid, _entity, %s)" % node.path)
     elif isinstance(node, FilterBinary):
-        def_filter.append("(")
-        def_filter.extend(_generate_filter_in_python(node.left, [], literals))
-        def_filter.append(" " + node.op + " ")
-        def_filter.extend(_generate_filter_in_python(node.right, [], literals))
-        def_filter.append(")")
+        if node.op in ("and", "or"):
+            def_filter.append("(")
+            def_filter.extend(_generate_filter_in_python(node.left, [], literals))
+            def_filter.append(" " + node.op + " ")
+            def_filter.extend(_generate_filter_in_python(node.right, [], literals))
+            def_filter.append(")")
+        else:
+            def_filter.append("_compare(%r, " % node.op)
+            def_filter.extend(_generate_filter_in_python(node.left, [], literals))
+            def_filter.append(", ")
+            def_filter.extend(_generate_filter_in_python(node.right, [], literals))
+            def_filter.append(")")
     elif isinstance(node, FilterUnary):
         if node.op == "has":
             def_filter.append('(id(')
